@@ -1149,19 +1149,29 @@ func (m *membersPool) MembersLen(node base.Address) int {
 }
 
 func (m *membersPool) Set(member Member) (added bool) {
-	_, _, _ = m.addrs.Set(memberid(member.Addr()), func(_ Member, addrfound bool) (Member, error) {
-		var members []Member
+	id := memberid(member.Addr())
 
+	_, _, _ = m.addrs.Set(id, func(old Member, addrfound bool) (Member, error) {
 		added = !addrfound
 
-		switch i, f := m.members.Value(member.Address().String()); {
-		case !f, i == nil:
-		default:
-			members = i
+		// NOTE re-joined member under another node; the old node does not keep it.
+		if addrfound && old != nil && !old.Address().Equal(member.Address()) {
+			m.removeFromNode(old.Address().String(), id)
 		}
 
-		members = append(members, member)
-		m.members.SetValue(member.Address().String(), members)
+		// NOTE the member list of the node is updated at once; the member of
+		// same addr is replaced, not duplicated.
+		_, _, _ = m.members.Set(member.Address().String(), func(members []Member, _ bool) ([]Member, error) {
+			nmembers := make([]Member, 0, len(members)+1)
+
+			for i := range members {
+				if memberid(members[i].Addr()) != id {
+					nmembers = append(nmembers, members[i])
+				}
+			}
+
+			return append(nmembers, member), nil
+		})
 
 		return member, nil
 	})
@@ -1170,12 +1180,34 @@ func (m *membersPool) Set(member Member) (added bool) {
 }
 
 func (m *membersPool) Remove(k *net.UDPAddr) (bool, error) {
-	return m.addrs.Remove(memberid(k), func(i Member, found bool) error {
-		if found {
-			_ = m.members.RemoveValue(i.Address().String())
+	id := memberid(k)
+
+	return m.addrs.Remove(id, func(i Member, found bool) error {
+		if found && i != nil {
+			m.removeFromNode(i.Address().String(), id)
 		}
 
 		return nil
+	})
+}
+
+// removeFromNode removes the member of the addr from the member list of the
+// node; the other members of the node are kept.
+func (m *membersPool) removeFromNode(node, id string) {
+	_, _, _, _ = m.members.SetOrRemove(node, func(members []Member, found bool) ([]Member, bool, error) {
+		if !found {
+			return nil, false, util.ErrLockedSetIgnore.WithStack()
+		}
+
+		nmembers := make([]Member, 0, len(members))
+
+		for i := range members {
+			if memberid(members[i].Addr()) != id {
+				nmembers = append(nmembers, members[i])
+			}
+		}
+
+		return nmembers, len(nmembers) < 1, nil
 	})
 }
 
